@@ -1,4 +1,5 @@
 from translators import t_fs
+from props import _fs
 
 ID = "C17"
 TITLE = "A failed compile leaves the artifact directory untouched"
@@ -41,3 +42,14 @@ def check_distribution(dist, cases):
     if dist.get("class:diag-after-success", 0) * 2 < cases:
         return f"only {dist.get('class:diag-after-success', 0)}/{cases} sessions have a failing compile after a successful one"
     return None
+
+
+REAL_CASES = {'quick': 96, 'thorough': 4000}
+
+
+def extra(ctx, harness_bin, driver_bin):
+    """the same property against the real compile() on generated projects"""
+    if not driver_bin:
+        return
+    n = REAL_CASES[ctx.tier]
+    _fs.real_run(ctx, harness_bin, driver_bin, "real17", HARNESS[1], n, [('diag:same:SS', int(n * 0.3)), ('diag:same:NN', int(n * 0.1))])
